@@ -157,6 +157,53 @@ def parse_log(log):
     return out
 
 
+def link_discipline(trace, limit=3):
+    """Write-ahead discipline for the one change of a table page that carries no LSN of its own: the link to its successor.
+    TableHeap.InsertTuple sets currentPage.next = newPage without stamping currentPage's LSN; the change is described by the
+    successor's NewTablePage record (prevPageID, pageID), which redo uses to restore the link.  So: whenever a table page (a page named
+    by a durable heap record) is written with next = Q, the NewTablePage record of Q must have reached the log file before.
+    `trace` is the H1 trace from the creation of the database (list of events as load_trace returns, or the trace text).
+    Returns a list of violation descriptions."""
+    if isinstance(trace, str):
+        ev = []
+        for l in trace.split("\n"):
+            if l[:1] == "P":
+                _, pid, hx = l.split(" ", 2)
+                ev.append(("P", int(pid), bytes.fromhex(hx)))
+            elif l[:1] == "L":
+                ev.append(("L", bytes.fromhex(l[2:])))
+            elif l[:1] == "G":
+                ev.append(("G",))
+        trace = ev
+    pending = b""
+    table_pages, created, viol = set(), set(), []
+    nio = 0
+    for e in trace:
+        if e[0] == "M":
+            continue
+        nio += 1
+        if e[0] == "L":
+            pending += e[1]
+            recs = parse_log(pending)
+            for r in recs:
+                if r["type"] in (1, 2, 3, 4, 5):
+                    table_pages.add(r["page"])
+                elif r["type"] == 9:
+                    created.add(r["page"]); table_pages.add(r["page"])
+                    if r["prevpage"] >= 0:
+                        table_pages.add(r["prevpage"])
+            if recs:
+                pending = pending[recs[-1]["off"] + recs[-1]["size"]:]
+        elif e[0] == "G":
+            pending = b""
+        elif e[0] == "P" and e[1] in table_pages and len(e[2]) >= 16:
+            nxt = int.from_bytes(e[2][12:16], "little", signed=True)
+            if nxt >= 0 and nxt not in created and len(viol) < limit:
+                viol.append("I/O event %d writes table page %d (page LSN %d) whose header links to successor page %d, but no NewTablePage record of page %d has reached the log file yet: "
+                            "after a crash here redo cannot re-create page %d and the chain of the table ends in a page that does not exist" % (nio, e[1], int.from_bytes(e[2][4:8], "little"), nxt, nxt, nxt))
+    return viol
+
+
 def losers(records):
     """transactions with data records and neither COMMIT (7) nor ABORT (8) in the log"""
     ended = {r["txn"] for r in records if r["type"] in (7, 8)}
